@@ -1824,15 +1824,18 @@ class FloatData(Data[float]):
         with printer.in_angle_brackets():
             printer.print_string(f"{self.data}")
 
+    def _bits(self) -> bytes:
+        # The IEEE-754 binary64 bit pattern of the value.
+        return struct.pack("<d", self.data)
+
     def __eq__(self, other: object):
-        # avoid triggering `float('nan') != float('nan')` inequality
-        return isinstance(other, FloatData) and (
-            (math.isnan(self.data) and math.isnan(other.data))
-            or self.data == other.data
-        )
+        # Compare bit patterns rather than float values, so that equality is an
+        # equivalence consistent with `__hash__`: a NaN is equal to itself (and to no
+        # NaN with a different payload), and `0.0` is distinct from `-0.0`.
+        return isinstance(other, FloatData) and self._bits() == other._bits()
 
     def __hash__(self):
-        return hash(self.data)
+        return hash(self._bits())
 
 
 _FloatAttrTypeCovT = TypeVar(
